@@ -2,9 +2,10 @@
    Directives in force: those of ExtrOcamlBasic, ExtrOcamlChar, ExtrOcamlString
    (listed in DESIGN.md section 6); nat/N/Z/positive stay inductive. *)
 From Coq Require Extraction ExtrOcamlBasic ExtrOcamlChar ExtrOcamlString.
-From CV Require Import Model.Base Model.Effector.
+From CV Require Import Model.Base Model.Effector Model.RoleGraph.
 Extraction Blacklist String List Char Bool Nat.
 Set Extraction KeepSingleton.
 Extraction "../extracted/model.ml"
   T teqb
-  observe_effector c02_pred new_stream parse_erule.
+  observe_effector c02_pred new_stream parse_erule
+  lstep lrun answer c03_pred.
